@@ -13,6 +13,8 @@ pub enum TextEnc {
     DecRefs,
     HexRefs,
     CData,
+    /// first half in a CDATA section, a comment, second half as escaped text (several XML events for one text)
+    Mixed,
 }
 
 /// character data of one <t>/<v>/<f> element
@@ -24,6 +26,10 @@ pub fn text_content(s: &str, enc: TextEnc) -> String {
         TextEnc::CData => {
             // "]]>" cannot occur inside one CDATA section: split it
             format!("<![CDATA[{}]]>", s.replace("]]>", "]]]]><![CDATA[>"))
+        }
+        TextEnc::Mixed => {
+            let k = s.char_indices().nth(s.chars().count() / 2).map(|x| x.0).unwrap_or(0);
+            format!("<![CDATA[{}]]><!-- m -->{}", s[..k].replace("]]>", "]]]]><![CDATA[>"), esc_text(&s[k..]))
         }
     }
 }
@@ -172,6 +178,15 @@ pub struct XEnc {
     pub split_text_nodes: bool,
     /// XML comments between adjacent tags of every part
     pub comments: bool,
+    /// xsd:boolean attributes spelled true/false instead of 1/0 (date1904)
+    pub bool_words: bool,
+    /// the sst count attribute is the number of references (here 1), smaller than the number of items (uniqueCount)
+    pub sst_count_refs: bool,
+    /// <numFmt formatCode=.. numFmtId=..> instead of id first
+    pub numfmt_code_first: bool,
+    /// members of a shared formula repeat the master's text inside their <f t="shared" si=..> element (ECMA-376 18.3.1.40 allows it;
+    /// the member's formula is still the master's, moved)
+    pub shared_members_carry_text: bool,
     /// the optional neighbours of sheetData a real writer emits: sheetPr, sheetFormatPr, cols, row spans / heights, cell cm/vm/ph
     /// attributes, sheetProtection, autoFilter, conditionalFormatting and dataValidations (with formula elements), pageMargins,
     /// and an extLst whose x14 rules contain xm:f / xm:sqref elements
@@ -181,7 +196,7 @@ impl Default for XEnc {
     fn default() -> Self {
         XEnc {
             prefix: false, row_r: RMode::Explicit, cell_r: RMode::Explicit, dim: DimMode::Exact, target: TargetMode::Relative,
-            upper_parts: false, upper_root: false, apply_nf: 0, method: Method::Deflated, explicit_t_n: false, empty_rows: false, reorder_members: false, rid_shuffle: false, indent: false, rels_target_first: false, rows_never_r: false, split_text_nodes: false, comments: false, extras: false,
+            upper_parts: false, upper_root: false, apply_nf: 0, method: Method::Deflated, explicit_t_n: false, empty_rows: false, reorder_members: false, rid_shuffle: false, indent: false, rels_target_first: false, rows_never_r: false, split_text_nodes: false, comments: false, extras: false, bool_words: false, sst_count_refs: false, numfmt_code_first: false, shared_members_carry_text: false,
         }
     }
 }
@@ -322,6 +337,10 @@ pub fn sheet_xml(sh: &XSheet, enc: &XEnc, table_rids: &[String]) -> String {
                     }
                     XFormula::Plain(s) => body.push_str(&format!("{}>{}{}", tg.o("f"), esc_text(s), tg.c("f"))),
                     XFormula::SharedMaster { si, rf, text } => body.push_str(&format!("{} t=\"shared\" ref=\"{}\" si=\"{}\">{}{}", tg.o("f"), rf, si, esc_text(text), tg.c("f"))),
+                    XFormula::SharedChild { si } if enc.shared_members_carry_text => {
+                        let mt = cells.iter().find_map(|x| match &x.formula { Some(XFormula::SharedMaster { si: s2, text, .. }) if s2 == si => Some(text.clone()), _ => None }).unwrap_or_default();
+                        body.push_str(&format!("{} t=\"shared\" si=\"{}\">{}{}", tg.o("f"), si, esc_text(&mt), tg.c("f")));
+                    }
                     XFormula::SharedChild { si } => body.push_str(&format!("{} t=\"shared\" si=\"{}\"/>", tg.o("f"), si)),
                 }
             }
@@ -370,7 +389,7 @@ pub fn sst_xml(sst: &[XText], enc: &XEnc) -> String {
     let tg = Tg { p: if enc.prefix { "x:" } else { "" } };
     let mut o = root_open(&tg, "sst");
     o.truncate(o.len() - 1);
-    o.push_str(&format!(" count=\"{}\" uniqueCount=\"{}\">", sst.len(), sst.len()));
+    o.push_str(&format!(" count=\"{}\" uniqueCount=\"{}\">", if enc.sst_count_refs { 1 } else { sst.len() }, sst.len()));
     for t in sst {
         if t.runs.is_empty() { o.push_str(&format!("{}/>", tg.o("si"))); } else { o.push_str(&format!("{}>{}{}", tg.o("si"), runs_xml(&tg, t), tg.c("si"))); }
     }
@@ -383,7 +402,10 @@ pub fn styles_xml(st: &XStyles, enc: &XEnc) -> String {
     let mut o = root_open(&tg, "styleSheet");
     if !st.num_fmts.is_empty() {
         o.push_str(&format!("{} count=\"{}\">", tg.o("numFmts"), st.num_fmts.len()));
-        for (id, code) in &st.num_fmts { o.push_str(&format!("{} numFmtId=\"{}\" formatCode=\"{}\"/>", tg.o("numFmt"), id, esc(code))); }
+        for (id, code) in &st.num_fmts {
+            if enc.numfmt_code_first { o.push_str(&format!("{} formatCode=\"{}\" numFmtId=\"{}\"/>", tg.o("numFmt"), esc(code), id)); }
+            else { o.push_str(&format!("{} numFmtId=\"{}\" formatCode=\"{}\"/>", tg.o("numFmt"), id, esc(code))); }
+        }
         o.push_str(&tg.c("numFmts"));
     }
     o.push_str(&format!("{} count=\"1\">{}>{} val=\"11\"/>{}{}", tg.o("fonts"), tg.o("font"), tg.o("sz"), tg.c("font"), tg.c("fonts")));
@@ -420,7 +442,7 @@ fn sheet_rel_type(k: SheetKind) -> &'static str {
 pub fn workbook_xml(b: &XBook, enc: &XEnc) -> String {
     let tg = Tg { p: if enc.prefix { "x:" } else { "" } };
     let mut o = root_open(&tg, "workbook");
-    if let Some(d) = b.date1904 { o.push_str(&format!("{} date1904=\"{}\"/>", tg.o("workbookPr"), if d { "1" } else { "0" })); }
+    if let Some(d) = b.date1904 { o.push_str(&format!("{} date1904=\"{}\"/>", tg.o("workbookPr"), match (d, enc.bool_words) { (true, false) => "1", (false, false) => "0", (true, true) => "true", (false, true) => "false" })); }
     o.push_str(&format!("{}>", tg.o("sheets")));
     for (i, s) in b.sheets.iter().enumerate() {
         let st = s.state.map(|x| format!(" state=\"{x}\"")).unwrap_or_default();
@@ -550,25 +572,27 @@ fn between_tags(x: &str, comments: bool) -> String {
     let mut depth = 0usize;
     let mut prev_open = false; // the previous token was an opening tag
     let mut text_before = false; // the previous token was text (incl. CDATA)
+    let mut mixed = false; // text seen inside the element being written: nothing is inserted until it closes
     let mut i = 0;
     while i < b.len() {
         if x[i..].starts_with("<![CDATA[") {
             // a CDATA section is text
             let end = i + x[i..].find("]]>").unwrap() + 3;
-            out.push_str(&x[i..end]); prev_open = false; text_before = true; i = end;
+            out.push_str(&x[i..end]); prev_open = false; text_before = true; mixed = true; i = end;
         } else if b[i] == b'<' {
             let end = i + b[i..].iter().position(|c| *c == b'>').unwrap();
             let tag = &x[i..=end];
             let closing = tag.starts_with("</");
             let selfc = tag.ends_with("/>") || tag.starts_with("<?") || tag.starts_with("<!--");
             if closing { depth = depth.saturating_sub(1); }
-            let after_text = std::mem::replace(&mut text_before, false);
+            let after_text = std::mem::replace(&mut text_before, false) || mixed;
+            if closing { mixed = false; }
             if i > 0 && b[i - 1] == b'>' && !after_text && !(closing && prev_open) && !x[..i].ends_with("?>\n") { if comments { out.push_str("<!--c-->"); } else { out.push('\n'); for _ in 0..depth { out.push_str("  "); } } }
             out.push_str(tag);
             prev_open = !closing && !selfc;
             if prev_open { depth += 1; }
             i = end + 1;
-        } else { let n = b[i..].iter().position(|c| *c == b'<').unwrap_or(b.len() - i); out.push_str(&x[i..i + n]); prev_open = false; text_before = true; i += n; }
+        } else { let n = b[i..].iter().position(|c| *c == b'<').unwrap_or(b.len() - i); out.push_str(&x[i..i + n]); prev_open = false; text_before = true; mixed = true; i += n; }
     }
     out
 }
